@@ -483,6 +483,81 @@ pub fn dhcp_nested() -> Vec<Vec<u8>> {
     v
 }
 
+/// DHCP options far longer than one instance can carry (RFC 3396 concatenation), for the options
+/// whose values the server decodes as text or lists when it logs or records a request, filled
+/// with ASCII, octets that are not UTF-8, and multi-octet UTF-8 characters at every alignment.
+pub fn dhcp_long_split() -> Vec<Vec<u8>> {
+    let mut v = vec![];
+    let base = |t: u8, k: usize| {
+        let mut m = wire::Msg {
+            xid: 0x5151_0000 + k as u32,
+            flags: 0x8000,
+            ..Default::default()
+        };
+        // one client throughout: every well-formed member is answered with a lease, and a
+        // family of distinct clients would drain a /24 before it is through
+        m.set_hw(&[2, 0x51, 0, 0, 0, 9]);
+        m.with_opt(wire::OPT_MSG_TYPE, &[t])
+    };
+    let fills: Vec<(usize, Vec<u8>)> = {
+        let mut f: Vec<(usize, Vec<u8>)> = vec![
+            (0, b"a".to_vec()),
+            (0, vec![0xff]),
+            (0, vec![0x80]),
+            (0, vec![b'a', 0xff]),
+            (0, vec![b'a', b'b', 0xff]),
+            (0, vec![b'a', 0xff, 0xff, b'c', 0xe2]),
+            (0, (0xc0u8..=0xff).collect()),
+            (0, vec![0]),
+            (0, b"a.".to_vec()),
+        ];
+        for lead in 0..4usize {
+            f.push((lead, vec![0xc3, 0xa9]));
+            f.push((lead, vec![0xe2, 0x82, 0xac]));
+            f.push((lead, vec![0xf0, 0x9f, 0x98, 0x80]));
+        }
+        f
+    };
+    let mut k = 0usize;
+    for code in [12u8, 15, 60, 61, 77, 81, 114, 119, 121, 55, 6] {
+        for total in [256usize, 300, 511, 700, 766, 770, 1020, 1180] {
+            for (lead, unit) in &fills {
+                // the wire tier carries at most 1472 octets of payload
+                let mut val: Vec<u8> = std::iter::repeat(b'x').take(*lead).collect();
+                while val.len() < total {
+                    val.extend_from_slice(unit);
+                }
+                val.truncate(total);
+                k += 1;
+                let t = if k % 3 == 0 { wire::REQUEST } else { wire::DISCOVER };
+                let m = match k % 4 {
+                    // one long value: instances of 255
+                    0 | 1 => base(t, k).with_opt(code, &val),
+                    // uneven instances, another option in between
+                    2 => {
+                        let (a, b) = val.split_at(1.max(total / 3));
+                        let mut m = base(t, k).with_opt(code, &a[..a.len().min(255)]).with_opt(wire::OPT_PARAM_LIST, &[1, 3, 6, 12, 15]);
+                        for c in b.chunks(200) {
+                            m = m.with_opt(code, c);
+                        }
+                        m
+                    }
+                    // many small instances
+                    _ => {
+                        let mut m = base(t, k);
+                        for c in val.chunks(97) {
+                            m = m.with_opt(code, c);
+                        }
+                        m
+                    }
+                };
+                v.push(m.encode());
+            }
+        }
+    }
+    v
+}
+
 /// ICMPv6: RS and RA carrying each option type 0..=40 and 108 with lengths 0..=4 (in units of 8).
 pub fn icmp6_nested() -> Vec<Vec<u8>> {
     let mut v = vec![];
